@@ -196,6 +196,9 @@ func pbfPrimitiveBlock(b PbfBlock) []byte {
 	if b.CutStrings > 0 && b.CutStrings < len(pbfStrings) {
 		blk.Stringtable = &pb.StringTable{S: pbfStrings[:b.CutStrings]}
 	}
+	if b.CutStrings < 0 {
+		blk.Stringtable = nil // the string table field is missing altogether (partial message)
+	}
 	if b.Gran != 0 {
 		blk.Granularity = proto.Int32(int32(b.Gran))
 	}
@@ -306,7 +309,7 @@ func pbfPrimitiveBlock(b PbfBlock) []byte {
 		}
 		blk.Primitivegroup = append(blk.Primitivegroup, g)
 	}
-	data, err := proto.Marshal(blk)
+	data, err := proto.MarshalOptions{AllowPartial: true}.Marshal(blk)
 	if err != nil {
 		panic(err)
 	}
